@@ -1044,6 +1044,11 @@ class yanny(OrderedDict):
         #
         lines = re.sub(r'\\\s*\n', ' ', lines)
         #
+        # Lines containing only comments cannot define anything, even if
+        # they look like (commented-out) definitions.
+        #
+        lines = re.sub(r'(?m)^[ \t]*#.*$', '', lines)
+        #
         # Find structure & enumeration definitions & strip them out
         #
         self._symbols['struct'] = re.findall(r'typedef\s+struct\s*\{[^}]+\}\s*\w+\s*;',
